@@ -537,7 +537,7 @@ class Rec:
         self.log.append([int(self.sched.clock), self.tag, "C"])
 
 
-class CaseTimeout(Exception):
+class CaseTimeout(BaseException):
     pass
 
 
